@@ -929,8 +929,15 @@ def text_reads_back(enc, st, v, piece):
     return piece == repr(bytes(v)), repr(bytes(v))
 
 
+# The character class of known finding C11-D, pinned at the time the finding was listed (NOT read from the
+# repository: a change of the class in constants.py must not be absorbed by the finding)
+PINNED_SCRUB_RANGES = [(0x00, 0x08), (0x0B, 0x0C), (0x0E, 0x1F), (0x7F, 0x84), (0x86, 0x9F), (0xD800, 0xDFFF),
+                       (0xFDD0, 0xFDDF), (0xFFFE, 0xFFFF)] + [(0x10000 * k + 0xFFFE, 0x10000 * k + 0xFFFF) for k in range(1, 17)]
+PINNED_SCRUB = re.compile("[%s]" % "".join(f"{chr(a)}-{chr(b)}" for a, b in PINNED_SCRUB_RANGES))
+
+
 def is_scrub_of(written, expected):
-    pat = SC.ILLEGAL_XML_CHARACTER_PATTERN
+    pat = PINNED_SCRUB
     cands = [expected] + ([" " + expected] if expected.startswith("=") else [])
     return any(written == pat.sub(" ", e) and written != e for e in cands)
 
